@@ -9,6 +9,7 @@ mod props;
 mod report;
 mod rng;
 mod scenario;
+mod sched;
 mod scratch;
 mod tree;
 
